@@ -22,6 +22,22 @@ CHECKS = {
         'every boundary + random long histories, 1-2 channels, three rates.',
    ref='DESIGN.md section 6 C14', note=COMMON_NOTE + ' Times are passed as k/fs; appends >= 1 sample, invalidation index >= 0, resize >= 1 sample, reads lower <= upper.',
    technique='Coq proof (simulation/refinement to abstract spec, induction over histories) + vm_compute correspondence against buffer.py'),
+ 'C01': dict(
+   text='Theorem: for EVERY generator expression (carriers, square wave, fixed, gate, envelope, SAM envelope, square-wave envelope with '
+        'rational period, stateful filter, repeat, and all compositions), every list of chunk sizes, drawing from a freshly reset '
+        'generator yields exactly the whole-stream denotation on [0, sum); fragment theorems for envelope / _sam_envelope / '
+        'SquareWaveFactory / square_wave at every (offset, samples) incl. past the end. Model tied to stim.py by a correspondence that evaluates the '
+        'model\'s symbolic recipes with one-shot elementary functions and compares bit-exactly, exhaustively in +-2 windows around every boundary.',
+   ref='DESIGN.md section 6 C01', note=COMMON_NOTE + ' cos/RNG/lfilter/window primitives are oracles (their own chunk invariance is tested, not proved); '
+        'float arithmetic of the square-wave period is modelled as exact rational arithmetic; WavSequenceFactory not modelled.',
+   technique='Coq proof (structural induction over generator expressions + fragment arithmetic lemmas) + vm_compute model outputs compared against stim.py'),
+ 'C09': dict(
+   text='Theorems for all parameters and ALL draw histories (incl. past the end): totals = start+duration (array length), remaining = '
+        'max(total - drawn, 0), complete iff drawn >= total, every sample outside [start, start+duration) is exactly zero (gate, envelope, fixed, repeat), '
+        'envelope = zeros / first window half over exactly rise samples / ones / second half, too-long rise rejected; cos^2 ramp in [0,1] over R. '
+        'Same model and correspondence as C01 plus the bookkeeping observables.',
+   ref='DESIGN.md section 6 C09', note=COMMON_NOTE + ' The [0,1] range is proved for the cosine-squared window over R (real-number axioms of the Coq standard library); for scipy windows it is checked numerically.',
+   technique='Coq proof (induction over draw histories) + vm_compute model outputs compared against stim.py'),
 }
 
 PENDING = 'not yet built in this round (framework is being extended property by property; see DESIGN.md section 8)'
